@@ -62,7 +62,7 @@ func (c *c07) Assumptions() []string {
 }
 
 func (c *c07) ProbeNames() []string {
-	return []string{"window_recentred", "window_recentred_backward", "window_clamped_at_file_end", "file_shorter_than_window", "empty_file", "read_longer_than_window", "read_straddles_2048_multiple", "engine_file_larger_than_window", "engine_matches_compared", "engine_match_straddles_2048_multiple", "two_readers_interleaved", "content_starts_with_bom", "engine_file_64k_or_more", "reader_file_64k_or_more"}
+	return []string{"window_recentred", "window_recentred_backward", "window_clamped_at_file_end", "file_shorter_than_window", "empty_file", "read_longer_than_window", "read_straddles_2048_multiple", "engine_file_larger_than_window", "engine_matches_compared", "engine_match_straddles_2048_multiple", "two_readers_interleaved", "content_starts_with_bom", "engine_file_64k_or_more", "reader_file_64k_or_more", "delivered_through_symlink", "delivered_through_directory_with_symlink"}
 }
 
 func (c *c07) SweepPrefix(phase string, i uint64) []uint64 {
@@ -468,6 +468,22 @@ func genContent(t *Tape, size int, plant string, salt uint64) ([]byte, []int) {
 	return b, plants
 }
 
+// deliveryOf picks, from the content's own hash so that no tape draw is needed, how the
+// file reaches RunFiles: 0 its path, 1 a symbolic link to it, 2 a directory holding a link to it.
+func deliveryOf(path string) int {
+	b, err := os.ReadFile(path)
+	if err != nil {
+		return 0
+	}
+	switch hashStr(string(b)) % 8 {
+	case 1:
+		return 1
+	case 2:
+		return 2
+	}
+	return 0
+}
+
 func (c *c07) compare(ctx *RunCtx, res *RunResult, v *libvore.Vore, src string, path string, content []byte, budget uint64) (string, string, bool) {
 	addV := func(oracle, key, detail string) {
 		if !hasKey(res.Violations, key) {
@@ -478,7 +494,22 @@ func (c *c07) compare(ctx *RunCtx, res *RunResult, v *libvore.Vore, src string, 
 	om := doRun(v, string(content))
 	simrt.OpEnd()
 	simrt.OpStart(budget)
-	of, fm := doRunFiles(v, []string{path}, engine.NOTHING, "")
+	arg := path
+	switch deliveryOf(path) {
+	case 1: // through a symbolic link to the file
+		arg = path + ".lnk"
+		os.Remove(arg)
+		os.Symlink(path, arg)
+		ctx.Count("delivered_through_symlink", 1)
+	case 2: // as the only entry, a symbolic link, of a directory argument
+		dir := path + ".d"
+		os.RemoveAll(dir)
+		os.MkdirAll(dir, 0755)
+		os.Symlink(path, filepath.Join(dir, "entry.txt"))
+		arg = dir
+		ctx.Count("delivered_through_directory_with_symlink", 1)
+	}
+	of, fm := doRunFiles(v, []string{arg}, engine.NOTHING, "")
 	simrt.OpEnd()
 	if om.Class == "abort" || of.Class == "abort" {
 		ctx.Count("engine_discarded_budget", 1)
